@@ -157,6 +157,28 @@ fn rust_samples(rng: &mut Rng) -> Vec<(&'static str, Vec<u8>)> {
             })
             .collect()
     };
+    // variants the core makes itself and marks as not crossing the bridge: the serializer must
+    // refuse them; whatever it does write has to decode under the schema like anything else
+    for e in [
+        HttpError::Json(s(rng)),
+        HttpError::Http {
+            code: crux_http::http::StatusCode::NotFound,
+            message: s(rng),
+            body: Some(b"nope".to_vec()),
+        },
+        HttpError::Http {
+            code: crux_http::http::StatusCode::InternalServerError,
+            message: String::new(),
+            body: None,
+        },
+    ] {
+        if let Ok(bytes) = opts().serialize(&e) {
+            out.push(("HttpError", bytes));
+        }
+        if let Ok(bytes) = opts().serialize(&HttpResult::Err(e)) {
+            out.push(("HttpResult", bytes));
+        }
+    }
     for _ in 0..3 {
         for e in [
             HttpError::Url(s(rng)),
